@@ -71,7 +71,12 @@ func valueLess(class int, a, b reflect.Value) bool {
 	case 3:
 		return a.String() < b.String()
 	default:
-		return fmt.Sprint(a) < fmt.Sprint(b)
+		// Different keys can print alike ([2]string{"a b", "c"} and {"a", "b c"} are both
+		// [a b c]); their Go syntax tells them apart.
+		if sa, sb := fmt.Sprint(a), fmt.Sprint(b); sa != sb {
+			return sa < sb
+		}
+		return fmt.Sprintf("%#v", a) < fmt.Sprintf("%#v", b)
 	}
 }
 
